@@ -18,7 +18,7 @@ RUN_LIMIT_CPU_S = 600     # one run enumerates hundreds of fault positions in th
 BUDGET = {'quick': 25, 'thorough': 300}
 BLOCK = 8
 STREAM_ORDER = ['ops', 'guards', 'faults', 'chart', 'cfg']
-RULE = (common.GEN + 'the monitored chart sends events (with delays) and notifies, in a third of the runs it carries contracts that are checked; listeners read every documented attribute of every meta-event; listeners: a plain recording callable (attach), a recording '
+RULE = (common.GEN + 'the monitored chart sends events (with delays) and notifies, in a third of the runs it carries contracts that are checked; listeners read every documented attribute of every meta-event; in half of the runs the property statecharts arm a far-away timeout on themselves (a pending delayed internal event of their own); listeners: a plain recording callable (attach), a recording '
         'property statechart (bind_property_statechart, built through interpreter_klass so that it shares a recorder) and a tripwire property '
         'statechart that becomes final at its k-th meta-event. Run A (no tripwire): the stream both recorders saw must equal the stream derived '
         'from the returned micro steps, the property chart own clock must equal the monitored step time, and the macro steps must equal those '
@@ -37,19 +37,22 @@ META = ['step started', 'step ended', 'event consumed', 'event sent', 'state exi
         'transition processed', 'delayed event sent', 'na', 'nb']
 
 
-def _recorder_chart():
+ARM = "send('never', delay=10 ** 9)"     # a property statechart may arm a timeout on itself: a pending delayed internal event
+
+
+def _recorder_chart(armed=False):
     sc = Statechart('recorder')
     sc.add_state(CompoundState('r', initial='s'), None)
-    sc.add_state(BasicState('s'), 'r')
+    sc.add_state(BasicState('s', on_entry=ARM if armed else None), 'r')
     for n in META:
         sc.add_transition(Transition('s', None, event=n, action='Q.rec(event, time)'))
     return sc
 
 
-def _tripwire_chart():
+def _tripwire_chart(armed=False):
     sc = Statechart('tripwire', preamble='n = 0')
     sc.add_state(CompoundState('r', initial='s'), None)
-    sc.add_state(BasicState('s'), 'r')
+    sc.add_state(BasicState('s', on_entry=ARM if armed else None), 'r')
     sc.add_state(FinalState('f'), 'r')
     for n in META:
         sc.add_transition(Transition('s', None, event=n, action='n = n + 1'))
@@ -57,8 +60,8 @@ def _tripwire_chart():
     return sc
 
 
-RECORDER = _recorder_chart()
-TRIPWIRE = _tripwire_chart()
+RECORDERS = {False: _recorder_chart(), True: _recorder_chart(True)}
+TRIPWIRES = {False: _tripwire_chart(), True: _tripwire_chart(True)}
 
 
 def norm(name, data):
@@ -173,6 +176,8 @@ def run(ch, tier):
     trip_first = cs.flag(1, 2)
     skew = cs.flag(1, 2)        # the monitored clock moves at every read: the property chart must still see the frozen step time
     mkclock = (lambda: SkewClock()) if skew else (lambda: SimClock())
+    armed = cs.flag(1, 2)       # the property statecharts keep a delayed event of their own pending during the whole run
+    RECORDER, TRIPWIRE = RECORDERS[armed], TRIPWIRES[armed]
     sp = gen_spec(ch.s('chart'), cfg)
     cfp = fp(sp.fingerprint())
     # ---------------- run A
@@ -257,6 +262,7 @@ def run(ch, tier):
         return res.fail('intrusive', 'executed code differs between a monitored and an unmonitored run', chart=sp.describe())
     res.stats['meta_events_in_fault_free_twin'] += n
     res.stats['runs_with_skewing_clock' if skew else 'runs_with_still_clock'] += 1
+    res.stats['runs_whose_property_charts_keep_a_delayed_event_pending'] += int(armed)
     # ---------------- runs B_k
     fs = ch.s('faults')
     if tier == 'thorough' or n <= 10:
